@@ -414,7 +414,10 @@ Section Sound.
   Proof. reflexivity. Qed.
   Lemma den_HeadsRange_raw c r h p f : f <> EAll ->
     den W c (EHeadsRange r h p f) = heads G (binter n (range_set c r h p) (pden W c f)).
-  Proof. intros Hf. destruct f; try reflexivity. congruence. Qed.
+  Proof.
+    intros Hf. destruct f; try congruence;
+      unfold den, pden, resolve, resolve_pred, range_set; cbn [res fst snd]; reflexivity.
+  Qed.
 
   Lemma den_HeadsRange c r h p f : okctx c -> wfs (x_refs c) h -> wfs (x_refs c) f ->
     den W c (EHeadsRange r h p f) = heads G (binter n (range_set c r h p) (den W c f)).
@@ -424,7 +427,7 @@ Section Sound.
                  = binter n (range_set c r h p) (den W c f)).
     { apply (bset_ext n); try apply tab_length. intros y Hy. rewrite !bmem_binter.
       destruct (bmem (range_set c r h p) y) eqn:E; [|now rewrite !andb_false_r].
-      rewrite pden_den; auto. eapply range_set_sub; eauto. }
+      rewrite pden_den; auto. exact (range_set_sub c r h p Hc Hh y E). }
     assert (Hd : {f = EAll} + {f <> EAll}) by (destruct f; try (right; discriminate); left; reflexivity).
     destruct Hd as [->|Hne].
     - (* filter = all(): no predicate is attached *)
